@@ -1895,6 +1895,70 @@ theorem emptyInst_item {F} (ops : FloatOps F) (lex : LexCfg) (cfg : RWCfg) (d : 
     rw [hh]
     simp [x, AnyRecE.item, stateOf]
 
+/-- **the property, composed, as a composition principle** (`_partial`): `read (write (read f)) = read f` and
+    `write (read (write (read f))) = write (read f)` for a data section `f` of *any* records given by their record-level
+    facts (`C01_read_items_partial`) whose denoted instances - complete - come with records that are the text `writeInst`
+    emits for them and satisfy the record-level facts again (`C01_file_write_read_items_partial`).  With
+    `anyRec_item1/2`, `storableInst_item` and `emptyInst_item` this is `C01_read_write_read_partial` extended to files with
+    records of entities without attributes, in any layout. -/
+theorem C01_read_write_read_items_partial {F} (ops : FloatOps F) (lex : LexCfg) (cfg : RWCfg) (d : Dict) (strict : Bool)
+    (hskip : cfg.skipInstanceSkipsComments = true)
+    (xs : List (Item F)) (g0 sp gE after : List Byte) (hg0 : Seps g0) (hsp : sp.all isSpace = true) (hgE : Seps gE)
+    (hnd : (xs.map (·.id)).Nodup) (hnull : ∀ x ∈ xs, x.sev = .null)
+    (h1 : ∀ x ∈ xs, Item1OK cfg d x)
+    (h2 : ∀ x ∈ xs, Item2OK ops lex cfg d strict (Mgr.lookup d ({ insts := xs.map (·.mkI) } : Mgr F)) x)
+    (hcomp : ∀ x ∈ xs, x.out.state = .complete)
+    (it : MInst F → Item F)
+    (wid : ∀ x ∈ xs, (it x.out).id = x.out.id) (wkey : ∀ x ∈ xs, keyOf (it x.out).mkI = keyOf x.out)
+    (wnull : ∀ x ∈ xs, (it x.out).sev = .null) (wout : ∀ x ∈ xs, (it x.out).out = { x.out with state := .complete })
+    (wtxt : ∀ x ∈ xs, ∀ K, 35 :: ((it x.out).body ++ ((it x.out).g ++ K)) = writeInst ops cfg d x.out ++ K)
+    (w1 : ∀ x ∈ xs, Item1OK cfg d (it x.out))
+    (w2 : ∀ x ∈ xs, Item2OK ops lex cfg d strict (Mgr.lookup d ({ insts := xs.map (·.out) } : Mgr F)) (it x.out)) :
+    ∃ res res2, readDataSection ops lex cfg d strict false
+        (g0 ++ renderItems xs (endsec sp (gE ++ (endIso ++ 59 :: after)))) = .ok res ∧
+      res.mgr.insts = xs.map (·.out) ∧ res.sev = .null ∧
+      readDataSection ops lex cfg d strict false
+        (10 :: (res.mgr.insts.flatMap (writeInst ops cfg d) ++ (stringToBytes "ENDSEC;\n" ++ (endIso ++ [59, 10])))) = .ok res2 ∧
+      res2.sev = .null ∧ res2.mgr.insts = res.mgr.insts ∧
+      res2.mgr.insts.flatMap (writeInst ops cfg d) = res.mgr.insts.flatMap (writeInst ops cfg d) := by
+  obtain ⟨res, hr, hinsts, hsev, _⟩ := C01_read_items_partial ops lex cfg d strict hskip xs g0 sp gE after hg0 hsp hgE hnd hnull h1 h2
+  have hm : res.mgr = { insts := xs.map (·.out) } := by
+    cases hmg : res.mgr with
+    | mk insts => rw [hmg] at hinsts; simp only at hinsts; rw [hinsts]
+  have hmem : ∀ i ∈ res.mgr.insts, ∃ x ∈ xs, x.out = i := by
+    intro i hi
+    rw [hinsts] at hi
+    obtain ⟨x, hx, rfl⟩ := List.mem_map.mp hi
+    exact ⟨x, hx, rfl⟩
+  have hnd2 : (res.mgr.insts.map (·.id)).Nodup := by
+    have : res.mgr.insts.map (·.id) = xs.map (·.id) := by
+      rw [hinsts, List.map_map]
+      apply List.map_congr_left
+      intro x hx
+      exact (h2 x hx).2.2.1
+    rw [this]; exact hnd
+  obtain ⟨res2, hr2, hsev2, _, hin2, hw2⟩ := C01_file_write_read_items_partial ops lex cfg d strict hskip res.mgr hnd2 it
+    (by intro i hi; obtain ⟨x, hx, rfl⟩ := hmem i hi; exact wid x hx)
+    (by intro i hi; obtain ⟨x, hx, rfl⟩ := hmem i hi; exact wkey x hx)
+    (by intro i hi; obtain ⟨x, hx, rfl⟩ := hmem i hi; exact wnull x hx)
+    (by intro i hi; obtain ⟨x, hx, rfl⟩ := hmem i hi; exact wout x hx)
+    (by intro i hi; obtain ⟨x, hx, rfl⟩ := hmem i hi; exact wtxt x hx)
+    (by intro i hi; obtain ⟨x, hx, rfl⟩ := hmem i hi; exact w1 x hx)
+    (by intro i hi; obtain ⟨x, hx, rfl⟩ := hmem i hi; rw [hm]; exact w2 x hx)
+  refine ⟨res, res2, hr, hinsts, hsev, hr2, hsev2, ?_, hw2⟩
+  rw [hin2]
+  conv => rhs; rw [← List.map_id res.mgr.insts]
+  apply List.map_congr_left
+  intro i hi
+  obtain ⟨x, hx, rfl⟩ := hmem i hi
+  have := hcomp x hx
+  cases hxo : x.out with
+  | mk id parts complex state =>
+    rw [hxo] at this
+    simp only at this
+    subst this
+    rfl
+
 /-! ### the two halves composed, and their hypotheses on a concrete file -/
 
 /-- **the token the writer emits for a stored value denotes that value** (`storable_covered`, exported): for every stored
@@ -2255,6 +2319,55 @@ theorem C01_file_write_read_items_witness :
     (by intro i hi; simp only [weMgr, List.mem_cons, List.not_mem_nil, or_false] at hi; rcases hi with rfl | rfl; exact hE.2.2.2.2.2.1; exact hA.2.2.2.2.2.1)
     (by intro i hi; simp only [weMgr, List.mem_cons, List.not_mem_nil, or_false] at hi; rcases hi with rfl | rfl; exact hE.2.2.2.2.2.2; exact hA.2.2.2.2.2.2)
   exact ⟨res, hr, hs, hi, hw⟩
+
+/-- … and the composed principle on `#1=E();⏎#2=A(5);⏎`: read, written, read again to the same two instances -/
+def weItems : List (Item Nat) := weMgr.insts.map weIt
+
+theorem C01_read_write_read_items_witness :
+    ∃ res res2, readDataSection dblOps Generated.rwLexCfg Generated.rwCfg eDict false false
+        ([10] ++ renderItems weItems (endsec [] ([10] ++ (endIso ++ 59 :: [10])))) = .ok res ∧
+      res.mgr.insts = weItems.map (·.out) ∧ res.sev = .null ∧
+      readDataSection dblOps Generated.rwLexCfg Generated.rwCfg eDict false false
+        (10 :: (res.mgr.insts.flatMap (writeInst dblOps Generated.rwCfg eDict) ++ (stringToBytes "ENDSEC;\n" ++ (endIso ++ [59, 10])))) = .ok res2 ∧
+      res2.sev = .null ∧ res2.mgr.insts = res.mgr.insts := by
+  have kwE : KeywordName "E" := ⟨69, [], by decide, by decide, by decide, by decide⟩
+  have kwA : KeywordName "A" := ⟨65, [], by decide, by decide, by decide, by decide⟩
+  have hE : ∀ (lk : Lookup) (st : NState), _ := fun lk st =>
+    emptyInst_item dblOps Generated.rwLexCfg Generated.rwCfg eDict false (by decide) lk { weInstE with state := st }
+      ⟨(by show (0 : Int) ≤ 1; decide), (by show (1 : Int) ≤ IStream.intMax; decide), rfl, { name := "E", vals := [] },
+        { name := "E", attrs := [], ancestors := ["E"] }, rfl, rfl, by decide, rfl, rfl, kwE⟩
+  have hA : ∀ (lk : Lookup) (st : NState), _ := fun lk st =>
+    storableInst_item dblOps Generated.rwLexCfg Generated.rwCfg eDict false (by decide) (by decide) (by decide) (by decide)
+      (by decide) (by decide) lk { weInstA with state := st }
+      ⟨(by show (0 : Int) ≤ 2; decide), (by show (2 : Int) ≤ IStream.intMax; decide), rfl,
+        { name := "A", vals := [.one (.atom (.int 5))] }, { name := "A", attrs := [wAttrI], ancestors := ["A"] },
+        rfl, (by show eDict.entity? "A" = _; decide), rfl, kwA, StorableRec.one wAttrI _ (Storable.int wAttrI rfl rfl rfl 5 (by decide) (by decide))⟩
+  obtain ⟨res, res2, h1, h2, h3, h4, h5, h6, _⟩ := C01_read_write_read_items_partial dblOps Generated.rwLexCfg Generated.rwCfg eDict false
+    (by decide) weItems [10] [] [10] [10] (Seps.blanks _ (by decide)) (by decide) (Seps.blanks _ (by decide)) (by decide)
+    (by intro x hx; simp only [weItems, weMgr, List.map_cons, List.map_nil, List.mem_cons, List.not_mem_nil, or_false] at hx
+        rcases hx with rfl | rfl; exact (hE (fun _ => none) .new).2.2.1; exact (hA (fun _ => none) .new).2.2.1)
+    (by intro x hx; simp only [weItems, weMgr, List.map_cons, List.map_nil, List.mem_cons, List.not_mem_nil, or_false] at hx
+        rcases hx with rfl | rfl; exact (hE (fun _ => none) .new).2.2.2.2.2.1; exact (hA (fun _ => none) .new).2.2.2.2.2.1)
+    (by intro x hx; simp only [weItems, weMgr, List.map_cons, List.map_nil, List.mem_cons, List.not_mem_nil, or_false] at hx
+        rcases hx with rfl | rfl; exact (hE _ .new).2.2.2.2.2.2; exact (hA _ .new).2.2.2.2.2.2)
+    (by intro x hx; simp only [weItems, weMgr, List.map_cons, List.map_nil, List.mem_cons, List.not_mem_nil, or_false] at hx
+        rcases hx with rfl | rfl <;> rfl)
+    weIt
+    (by intro x hx; simp only [weItems, weMgr, List.map_cons, List.map_nil, List.mem_cons, List.not_mem_nil, or_false] at hx
+        rcases hx with rfl | rfl; exact (hE (fun _ => none) .complete).1; exact (hA (fun _ => none) .complete).1)
+    (by intro x hx; simp only [weItems, weMgr, List.map_cons, List.map_nil, List.mem_cons, List.not_mem_nil, or_false] at hx
+        rcases hx with rfl | rfl; exact (hE (fun _ => none) .complete).2.1; exact (hA (fun _ => none) .complete).2.1)
+    (by intro x hx; simp only [weItems, weMgr, List.map_cons, List.map_nil, List.mem_cons, List.not_mem_nil, or_false] at hx
+        rcases hx with rfl | rfl; exact (hE (fun _ => none) .complete).2.2.1; exact (hA (fun _ => none) .complete).2.2.1)
+    (by intro x hx; simp only [weItems, weMgr, List.map_cons, List.map_nil, List.mem_cons, List.not_mem_nil, or_false] at hx
+        rcases hx with rfl | rfl; exact (hE (fun _ => none) .complete).2.2.2.1; exact (hA (fun _ => none) .complete).2.2.2.1)
+    (by intro x hx; simp only [weItems, weMgr, List.map_cons, List.map_nil, List.mem_cons, List.not_mem_nil, or_false] at hx
+        rcases hx with rfl | rfl; exact (hE (fun _ => none) .complete).2.2.2.2.1; exact (hA (fun _ => none) .complete).2.2.2.2.1)
+    (by intro x hx; simp only [weItems, weMgr, List.map_cons, List.map_nil, List.mem_cons, List.not_mem_nil, or_false] at hx
+        rcases hx with rfl | rfl; exact (hE (fun _ => none) .complete).2.2.2.2.2.1; exact (hA (fun _ => none) .complete).2.2.2.2.2.1)
+    (by intro x hx; simp only [weItems, weMgr, List.map_cons, List.map_nil, List.mem_cons, List.not_mem_nil, or_false] at hx
+        rcases hx with rfl | rfl; exact (hE _ .complete).2.2.2.2.2.2; exact (hA _ .complete).2.2.2.2.2.2)
+  exact ⟨res, res2, h1, h2, h3, h4, h5, h6⟩
 
 def exDict : Dict :=
   { entities := [{ name := "A", attrs := [{ name := "i", ty := .one .integer, optional := false },
